@@ -74,8 +74,8 @@ def bare_able(node):
 
 def url_in_bracket_context(x, K):
     """ids of text-less URL nodes that sit where a bracketed form reads differently from the bare form:
-    inside a LINK argument, or after the opening bracket of an external link whose text they are
-    (the parser leaves '[scheme://... ' as a string in front of them)."""
+    inside a LINK argument, after the opening bracket of an external link whose text they are (the parser
+    leaves '[scheme://... ' as a string in front of them), or directly in front of a text that starts with ]."""
     out = set()
     stack = [(x, False)]
     while stack:
@@ -89,12 +89,13 @@ def url_in_bracket_context(x, K):
             grps = [(n.children, inlink)] + [(a, il) for a in n.largs] + ([(n.definition, inlink)] if n.definition else [])
         for grp, il in grps:
             opened = False
-            for c in grp:
+            for j, c in enumerate(grp):
                 if isinstance(c, str):
                     if "[" in c or "]" in c:
                         opened = c.rfind("[") > c.rfind("]")
                     continue
-                if c.kind == K.URL and bare_able(c) and (il or opened):
+                nxt = grp[j + 1] if j + 1 < len(grp) else None
+                if c.kind == K.URL and bare_able(c) and (il or opened or (isinstance(nxt, str) and nxt.startswith("]"))):
                     out.add(id(c))
                 stack.append((c, il))
     return out
@@ -119,7 +120,18 @@ def floors(tier):
             "counters.protected-brackets-emitted": 1000, "counters.docs.with-literal-brackets": 1000,
             "counters.docs.with-html-attrs": 5000, "counters.docs.with-list": 5000, "counters.docs.with-table": 5000,
             "counters.docs.with-template": 5000, "counters.docs.with-parserfn": 3000, "counters.docs.with-section": 5000,
-            "counters.depth.4": 3000, "nontrivial": 15000}
+            "counters.depth.4": 3000, "nontrivial": 15000,
+            # literal double brackets as text in the first tree, per position (what the protection is for)
+            "counters.lit.closer-only.in=LINK-arg": 800, "counters.lit.opener-only.in=LINK-arg": 500,
+            "counters.lit.both.in=LINK-arg": 100,
+            "counters.lit.closer-only.in=LINK>BOLD": 200, "counters.lit.closer-only.in=LINK>ITALIC": 200,
+            "counters.lit.closer-only.in=LINK>HTML": 200,
+            "counters.lit.closer-only.in=TABLE_CELL": 300, "counters.lit.opener-only.in=TABLE_CELL": 200,
+            "counters.lit.closer-only.in=LIST_ITEM": 400, "counters.lit.opener-only.in=LIST_ITEM": 300,
+            "counters.lit.closer-only.in=LEVEL-arg": 70, "counters.lit.closer-only.in=TABLE_CAPTION": 10,
+            "counters.lit.closer-only.in=HTML": 100, "counters.lit.closer-only.in=BOLD": 100,
+            "counters.docs.with-protected-literal": 3000, "counters.docs.with-plit-in-link": 2000,
+            "counters.docs.with-plit-in-extlink": 700, "counters.docs.with-protected-literal-in-link-target": 150}
 
 
 def shards(tier, seed):
@@ -337,6 +349,9 @@ class Monitor:
             return [("raises:" + exc_sig(e), repr(e)[:300])], info
         c1, c2, c3 = N_node(t1), N_node(t2), N_node(t3)
         info["kinds"] = kinds_of(t1)
+        if count:
+            for key, v in literal_positions(t1).items():
+                obs.count(key, v)
         info["w1"] = w1
         if count:
             obs.check("rt1")
@@ -442,6 +457,32 @@ def has_link(canon_list):
     return any(not isinstance(x, str) and x[0] == "LINK" for x in canon_list)
 
 
+def literal_positions(root):
+    """Where the first tree holds text with ]] but no [[ ('closer-only'), [[ but no ]] ('opener-only') or both:
+    {'closer-only.in=LINK-arg': n, ...}.  Position = kind owning the string (LEVELn folded to LEVEL; '-arg' /
+    '-definition' for those fields), prefixed with 'LINK>' when the string sits deeper inside a link argument."""
+    out = {}
+    stack = [(root, False)]
+    while stack:
+        n, inlink = stack.pop()
+        k = n.kind.name
+        kk = "LEVEL" if k.startswith("LEVEL") else k
+        fields = [(n.children, ""), (n.definition or [], "-definition")] + [(a, "-arg") for a in n.largs]
+        for lst, suffix in fields:
+            il = inlink or (k == "LINK" and suffix == "-arg")
+            for c in lst:
+                if isinstance(c, str):
+                    o, cl = "[[" in c, "]]" in c
+                    if o or cl:
+                        what = "both" if o and cl else ("opener-only" if o else "closer-only")
+                        pos = ("LINK>" if inlink else "") + kk + suffix
+                        key = "lit.%s.in=%s" % (what, pos)
+                        out[key] = out.get(key, 0) + 1
+                else:
+                    stack.append((c, il))
+    return out
+
+
 def list_ok(lst):
     """A child list can be passed directly iff its first character is not line-start sensitive."""
     x = lst[0]
@@ -543,7 +584,9 @@ def run_shard(spec):
         obs.count("depth.%d" % depth)
         for f in feats:
             obs.add("features", f)
-        for f in ("literal-brackets", "list", "table", "deflist", "caption", "magic-word", "section", "template", "parserfn"):
+        for f in ("literal-brackets", "list", "table", "deflist", "caption", "magic-word", "section", "template", "parserfn",
+                  "protected-literal", "plit-in-link", "plit-in-extlink", "plit-in-cell", "plit-in-list-item",
+                  "plit-in-heading", "protected-literal-in-link-target"):
             if f in feats:
                 obs.count("docs.with-" + f)
         if any(f.endswith("-attrs") for f in feats):
